@@ -21,3 +21,7 @@ func Sleep(d time.Duration) { intrinsic() }
 
 // HashBitVectors switches the uninterpreted sha256 to a bit-vector valued function (engine/sym/models_sha_bv.go).
 func HashBitVectors() { intrinsic() }
+
+// Fix assumes x == k (k concrete) and makes every later computation of the same term continue with k
+// (engine/sym/fixed_terms.go).
+func Fix(x uint64, k uint64) { intrinsic() }
